@@ -75,9 +75,14 @@ def evaluate(case, out):
     except Exception as e:  # noqa
         out.lib_exception("consistent_sampling", e)
         return
+    feats = set()
+    if len(cvrs) % 3 == 1:
+        # the sample as retrieved (by position in the list), not in selection order: which cards contribute does not
+        # depend on how the sample is listed
+        idx = sorted(int(i) for i in idx)
+        feats.add("sample-listed-in-list-order")
     cs = [cvrs[i] for i in idx]
     ms = [mvrs[i] for i in idx]
-    feats = set()
     judged = 0
     expect_u = {}
     for cid, con in contests.items():
